@@ -52,6 +52,7 @@ pub broadcast axiom fn axiom_cow_from_cow<'a>(v: Cow<'a, str>)
 
 pub axiom fn std_facts()
     ensures
+        <String as vstd::std_specs::cmp::PartialEqSpec<String>>::obeys_eq_spec(),
         <Cow<'static, str> as FromSpec<Cow<'static, str>>>::obeys_from_spec(),
         <String as FromSpec<&str>>::obeys_from_spec(),
         <Cow<'static, str> as FromSpec<String>>::obeys_from_spec(),
@@ -222,6 +223,16 @@ pub fn vx_string_ends_with_char(s: &String, c: char) -> (r: bool)
 pub fn vx_chars_nth(s: &str, n: usize) -> (r: Option<char>)
     ensures r == (if (n as int) < s@.len() { Some(s@[n as int]) } else { None::<char> })
 { s.chars().nth(n) }
+
+// W.to_string: `c.to_string()` for a char
+#[verifier::external_body]
+pub fn vx_char_to_string(c: char) -> (r: String)
+    ensures r@ == seq![c]
+{ c.to_string() }
+
+// String == String is equality of contents
+pub broadcast axiom fn axiom_string_eq(a: &String, b: &String)
+    ensures #[trigger] <String as vstd::std_specs::cmp::PartialEqSpec<String>>::eq_spec(a, b) == (a@ == b@);
 
 // W.count: `s.chars().count()`
 #[verifier::external_body]
